@@ -140,17 +140,39 @@ def api_shard(acc, seed: int, cover: str, part: int) -> None:
         blobs[(l1, l2)] = cms.ref_encrypt(rk, API_SID, PT, (l0, l1, l2), cek=d.bytes(32), gcm_nonce_=d.bytes(12), key_nonce=d.bytes(32))
     n = 0
     for l1e, l2e in [(a, b) for a in SUB for b in SUB]:
-        dc = refdc.DC([rk], now=(361, 0, 0), cover=cover)
+      for prime in (("unprotect", "protect-twice") if cover == "exact" else ("unprotect",)):
         cache = dpapi_ng.KeyCache()
-        with transport.network(dc), secctx.scripted_client(lambda u, p, **kw: secctx.ScriptedContext([b"C1"], 16)):
-            got = dpapi_ng.ncrypt_unprotect_secret(blobs[(l1e, l2e)], server="dc", username="u", password="p", auth_protocol="ntlm", cache=cache)
-        if bytes(got) != PT:
-            acc.violate("api.prime", ["api", cover, part, l1e, l2e], {"got": repr(bytes(got))})
-            continue
+        if prime == "unprotect":
+            dc = refdc.DC([rk], now=(361, 0, 0), cover=cover)
+            with transport.network(dc), secctx.scripted_client(lambda u, p, **kw: secctx.ScriptedContext([b"C1"], 16)):
+                try:
+                    got = dpapi_ng.ncrypt_unprotect_secret(blobs[(l1e, l2e)], server="dc", username="u", password="p", auth_protocol="ntlm", cache=cache)
+                except Exception as e:  # noqa: BLE001
+                    acc.violate("api.prime.exc", ["api", cover, part, l1e, l2e], {"exc": repr(e)})
+                    continue
+            if bytes(got) != PT:
+                acc.violate("api.prime", ["api", cover, part, l1e, l2e], {"got": repr(bytes(got))})
+                continue
+        else:
+            # the cache is filled by a protect through the DC whose "now" is (l1e, l2e), followed by a second protect that hits the cache
+            dc = refdc.DC([rk], now=(l0, l1e, l2e), cover=cover)
+            ft = l0 * 1024 * gkdi.B + l1e * 32 * gkdi.B + l2e * gkdi.B + 99
+            bad = None
+            with seams.clock(ft), transport.network(dc), secctx.scripted_client(lambda u, p, **kw: secctx.ScriptedContext([b"C1"], 16)):
+                for rep in (0, 1):
+                    try:
+                        pb = dpapi_ng.ncrypt_protect_secret(PT, API_SID, root_key_identifier=rk.rkid, server="dc", username="u", password="p", auth_protocol="ntlm", cache=cache)
+                        if cms.ref_decrypt(rk, bytes(pb)) != PT:
+                            bad = "protect output not decryptable by the reference"
+                    except Exception as e:  # noqa: BLE001
+                        bad = repr(e)
+            if bad or len(dc.getkey_calls) != 1:
+                acc.violate("api.prime-by-protect", ["api", cover, part, l1e, l2e, "protect-twice"], {"problem": bad, "getkey_calls": len(dc.getkey_calls)})
+                continue
         have = dc.returned[-1][2][1:]
         for (l1, l2), blob in blobs.items():
             c2 = copy.deepcopy(cache)
-            case = ["api", cover, part, l1e, l2e, l1, l2]
+            case = ["api", cover, part, l1e, l2e, l1, l2, prime]
             st, v, kdfs = budget.kdf_guarded(KDF_CAP, lambda: seams.outcome_of(lambda: dpapi_ng.ncrypt_unprotect_secret(blob, cache=c2)))
             n += 1
             if st == "budget":
